@@ -439,6 +439,9 @@ theorem descriptions_change_only_by_successful_setter_partial (pc : Pc) (c : Cal
 
 /-! ### non-vacuity and witnesses -/
 
+-- (helper definitions `audioSec`, `offerA`, … follow)
+
+
 def audioSec (mid : String) (rtpmap : String) : Section :=
   { kind := .audio, mid := mid.toList, dir := .sendrecv, formats := [], rtpmaps := [rtpmap.toList], extmaps := [],
     addr4 := true, addrAny := true }
@@ -448,6 +451,47 @@ def answerA : Desc := { id := 2, ty := .answer, eqKey := 2, fp := .sha256 0, sec
 def pcAudio : Pc := addTransceiver (Pc.new .webrtc) .audio .sendrecv
 /-- an RTP-mode connection whose configured bind address cannot be bound -/
 def pcRtpNoBind : Pc := addTransceiver (Pc.new .rtp true) .audio .sendrecv
+
+/-! ### what a first offer leaves behind (hypotheses `KindSynced` / `DirSynced` of C08) -/
+
+/-- **first_offer_syncs_transceivers** — on a connection whose transceivers carry no mid yet (new
+connection with any pre-added transceivers), after a successful first `set_remote_description(offer)`
+whose sections carry pairwise distinct non-empty mids: every transceiver found under an offered
+section's mid has that section's kind and that section's direction.  This is exactly what the
+C08 theorems `answer_aligned_partial` / `answer_direction_ok_desc` assume of the state in which
+`create_answer` runs. -/
+theorem first_offer_syncs_transceivers (pc : Pc) (d : Desc) (hty : d.ty = .offer) (hrem : pc.rem = none)
+    (hfresh : ∀ t ∈ pc.trxs, t.mid = none) (hne : ∀ s ∈ d.sections, s.mid ≠ [])
+    (hdist : DistinctMids d.sections) (hok : (setRemote pc d).2 = .ok) :
+    ∀ o ∈ d.sections, ∀ t ∈ (setRemote pc d).1.trxs, t.mid = some o.mid → t.kind = o.kind ∧ t.dir = o.dir := by
+  intro o ho t ht hm
+  rw [setRemote_first_trxs pc d hrem hok] at ht
+  have hinv : SyncInv [] pc.trxs := by
+    intro x hx m hxm; rw [hfresh x hx] at hxm; cases hxm
+  have := foldl_remoteOfferSection_sync d.sections [] pc.trxs [] hinv hne
+  simp only [List.nil_append] at this
+  have ht' : t ∈ (d.sections.foldl remoteOfferSection (pc.trxs, [])).1 := by
+    simpa [applyRemote, hty] using ht
+  obtain ⟨s, hs, hsm, hk, hd⟩ := this t ht' o.mid hm
+  have : s = o := distinct_inj d.sections hdist s o hs ho hsm
+  subst this
+  exact ⟨hk, hd⟩
+
+def videoSec1 : Section :=
+  { kind := .video, mid := "1".toList, dir := .recvonly, formats := [], rtpmaps := ["96 VP8/90000".toList], extmaps := [] }
+def offerAV : Desc :=
+  { id := 0, ty := .offer, eqKey := 0, fp := .sha256 0, sections := [audioSec "0" "111 opus/48000/2", videoSec1] }
+def pcTwo : Pc := addTransceiver (addTransceiver (Pc.new .webrtc) .video .sendonly) .audio .inactive
+
+/-- non-vacuity: two pre-added mid-less transceivers, an audio + video offer with mids 0 / 1 -/
+example :
+    (setRemote pcTwo offerAV).2 = .ok ∧ DistinctMids offerAV.sections ∧
+    (setRemote pcTwo offerAV).1.trxs.map (fun t => (t.kind, t.mid, t.dir)) =
+      [(.video, some "1".toList, .recvonly), (.audio, some "0".toList, .sendrecv)] := by
+  refine ⟨by decide, ?_, by decide⟩
+  unfold DistinctMids offerAV
+  simp only [DistinctMids]
+  decide
 
 /-- the machine is exercised: a full offer/answer round trip, a rejected call in between -/
 example : (trace pcAudio [.createOffer, .setLocal offerA, .setLocal offerB, .setRemote answerA]) =
